@@ -277,16 +277,9 @@ def run(tier="quick", seed=0):
         distinct.add((d["w"], d["h"], tuple(sorted(d["status"].items())), hash(busy), tuple(c["n"] for c in d["chips"].values())))
         if bad and len([v for v in viol if v["clause"] == bad[0]]) < 2 and len(viol) < 6:
             viol.append({"id": "%s_%d" % (tag, ev), "clause": bad[0], "why": bad[1], "inputs": jsonable(d)})
-        if ev in (3, 400) or (nd and len(samples) < 1):
+        if ev in (700, 1500) or (nd and len(samples) < 1):
             samples.append(jsonable(d))
 
-    # (1) every responding/dead/unresponsive pattern on machines of up to 4 chips (and 2x3 in the thorough tier)
-    shapes = [(1, 1), (2, 1), (1, 2), (3, 1), (1, 3), (2, 2), (4, 1), (1, 4)] + ([(3, 2), (2, 3)] if tier == "thorough" else [])
-    for w, h in shapes:
-        pos = [(x, y) for x in range(w) for y in range(h)]
-        for pat in itertools.product((OK, DEAD, MUTE), repeat=len(pos)):
-            if OK in pat:
-                one(random_machine(rng, w, h, status=dict(zip(pos, pat))), "small")
     # (2) reservations: 1x1 machines, every set of <= 2 busy cores and every interval of busy cores, 1 / 17 / 18 cores
     for n in (1, 17, 18):
         sets = [set(c) for k in range(3) for c in itertools.combinations(range(n), k)] + \
@@ -304,8 +297,15 @@ def run(tier="quick", seed=0):
                 for xy, own in (((0, 0), a), ((1, 0), b)):
                     d["chips"][xy]["states"] = [rng.choice(NON_IDLE) if (p == own or p in both) else IDLE for p in range(18)]
                 one(d, "resv2")
+    # (1) every responding/dead/unresponsive pattern on machines of up to 4 chips (and 2x3 in the thorough tier)
+    shapes = [(1, 1), (2, 1), (1, 2), (3, 1), (1, 3), (2, 2), (4, 1), (1, 4)] + ([(3, 2), (2, 3)] if tier == "thorough" else [])
+    for w, h in shapes:
+        pos = [(x, y) for x in range(w) for y in range(h)]
+        for pat in itertools.product((OK, DEAD, MUTE), repeat=len(pos)):
+            if OK in pat:
+                one(random_machine(rng, w, h, status=dict(zip(pos, pat))), "small")
     # (4) seeded machines up to 4x4 (some taller / wider to cross a P2P word), with per-core details on every 4th
-    n_rand = 500 if tier == "quick" else 12000
+    n_rand = 1200 if tier == "quick" else 12000
     for k in range(n_rand):
         w, h = rng.choice(((3, 3), (4, 4), (4, 3), (3, 4), (2, 4), (4, 2), (rng.randint(1, 4), rng.randint(1, 4)), (2, 9), (9, 2), (1, 17)))
         d = random_machine(rng, w, h, cores=rng.choice(("mixed", "all18")))
